@@ -184,7 +184,8 @@ my_fileset_reload(struct my_fileset *fs)
 		fname = ubuf_cstr(u);
 		if (path_exists(fname)) {
 			entptr = fetch_entry(fs->entries, fname);
-			if (entptr == NULL || (*entptr)->keep) {
+			if (entptr == NULL || (*entptr)->keep ||
+			    ((*entptr)->ptr == NULL && fs->load != NULL)) {
 				ent = my_calloc(1, sizeof(*ent));
 				ent->fname = my_strdup(fname);
 				if (fs->load)
